@@ -1,5 +1,6 @@
 import CkbVerif.Driver.Util
 import CkbVerif.Model.Store
+import CkbVerif.Model.Fork
 
 /-! Line-protocol driver for C02 (protocol: see harness/n02/src/c02.rs).  Every state-changing op
 is answered with the canonical dump of the model's view. -/
@@ -193,7 +194,67 @@ def step (s : St) (ts : List String) : St × String :=
     | none => (s, "bad-op")
   | _ => (s, "bad-op")
 
-def main (_args : List String) : IO UInt32 :=
-  runLines ({} : St) step
+/-! ### stream `fork`: `find_fork` on a stored block tree (protocol: harness/n02/src/c02_fork.rs)
+
+* `blk <id> <parent> <number> <td> <N|T|F>` — a stored block (id 0 = genesis; each id defined once),
+  its ext's total difficulty and `verified` (`N` = `None`); answer `ok`
+* `main <id0,id1,…>` — the main-chain index, by height; answer `ok`
+* `fork <id> <td>` — `find_fork(current tip number = |main| - 1, new tip = id, new tip ext with
+  total difficulty td)`; answer `det=… att=… dirty=<total difficulties> vlen=<verified_len>` -/
+namespace F
+
+structure Blk where
+  parent : Nat
+  number : Nat
+  td : Nat
+  verNone : Bool
+deriving Inhabited
+
+structure St where
+  /-- indexed by block id; ids need not be consecutive (a shrunk replay has gaps) -/
+  blocks : Array (Option Blk) := #[]
+  main : Array Nat := #[]
+
+def blkOf (s : St) (x : Nat) : Blk := ((s.blocks.getD x none)).getD default
+
+def store (s : St) : Fork.Store where
+  parent := fun x => (blkOf s x).parent
+  number := fun x => (blkOf s x).number
+  mainAt := fun n => s.main.getD n 0
+  verNone := fun x => (blkOf s x).verNone
+
+def defined (s : St) (x : Nat) : Bool := (s.blocks.getD x none).isSome
+
+def step (s : St) (ts : List String) : St × String :=
+  match ts with
+  | ["blk", id, parent, number, td, v] =>
+    match parseNat? id, parseNat? parent, parseNat? number, parseNat? td with
+    | some id, some parent, some number, some td =>
+      if defined s id ∨ id > 100000 ∨ ¬ (v = "N" ∨ v = "T" ∨ v = "F") then (s, "bad-op")
+      else
+        let padded := s.blocks ++ Array.replicate (id + 1 - s.blocks.size) none
+        ({ s with blocks := padded.set! id (some ⟨parent, number, td, v == "N"⟩) }, "ok")
+    | _, _, _, _ => (s, "bad-op")
+  | ["main", ids] =>
+    match parseNatList? ids with
+    | some ids => if ids.isEmpty then (s, "bad-op") else ({ s with main := ids.toArray }, "ok")
+    | none => (s, "bad-op")
+  | ["fork", id, td] =>
+    match parseNat? id, parseNat? td with
+    | some id, some td =>
+      if !defined s id ∨ s.main.isEmpty then (s, "bad-op") else
+      let f := Fork.findFork (store s) (s.main.size - 1) id
+      -- an ext is represented by the id of its block; the new tip's ext is the one passed in
+      let tdOf := fun x => if x = id then td else (blkOf s x).td
+      (s, s!"det={showNatList f.detached} att={showNatList f.attached} dirty={showNatList (f.dirtyExts.map tdOf)} vlen={f.verifiedLen}")
+    | _, _ => (s, "bad-op")
+  | _ => (s, "bad-op")
+
+end F
+
+def main (args : List String) : IO UInt32 :=
+  match args with
+  | ["fork"] => runLines ({} : F.St) F.step
+  | _ => runLines ({} : St) step
 
 end CkbVerif.Driver.C02
